@@ -87,6 +87,7 @@ Record aux := mk_aux {
   a_nonce : bool;
   a_blindediss : option bool;
   a_issblind : bool;
+  a_issbad : bool;
   a_urp : bool;
   a_expval : N;
   a_valproof : bool;
@@ -99,33 +100,34 @@ Record aux := mk_aux {
   a_tapik : N;
   a_tapmr : N
 }.
-Definition set_a_nw (v : bool) (x : aux) : aux := {| a_nw := v; a_nwrp := a_nwrp x; a_w := a_w x; a_psigs := a_psigs x; a_sighash := a_sighash x; a_redeem := a_redeem x; a_wscript := a_wscript x; a_bip32 := a_bip32 x; a_fss := a_fss x; a_fsw := a_fsw x; a_issval := a_issval x; a_isskeys := a_isskeys x; a_entropy := a_entropy x; a_nonce := a_nonce x; a_blindediss := a_blindediss x; a_issblind := a_issblind x; a_urp := a_urp x; a_expval := a_expval x; a_valproof := a_valproof x; a_expasset := a_expasset x; a_assetproof := a_assetproof x; a_tapkeysig := a_tapkeysig x; a_tapss := a_tapss x; a_tapleaves := a_tapleaves x; a_tapbip32 := a_tapbip32 x; a_tapik := a_tapik x; a_tapmr := a_tapmr x |}.
-Definition set_a_nwrp (v : bool) (x : aux) : aux := {| a_nw := a_nw x; a_nwrp := v; a_w := a_w x; a_psigs := a_psigs x; a_sighash := a_sighash x; a_redeem := a_redeem x; a_wscript := a_wscript x; a_bip32 := a_bip32 x; a_fss := a_fss x; a_fsw := a_fsw x; a_issval := a_issval x; a_isskeys := a_isskeys x; a_entropy := a_entropy x; a_nonce := a_nonce x; a_blindediss := a_blindediss x; a_issblind := a_issblind x; a_urp := a_urp x; a_expval := a_expval x; a_valproof := a_valproof x; a_expasset := a_expasset x; a_assetproof := a_assetproof x; a_tapkeysig := a_tapkeysig x; a_tapss := a_tapss x; a_tapleaves := a_tapleaves x; a_tapbip32 := a_tapbip32 x; a_tapik := a_tapik x; a_tapmr := a_tapmr x |}.
-Definition set_a_w (v : option utxo) (x : aux) : aux := {| a_nw := a_nw x; a_nwrp := a_nwrp x; a_w := v; a_psigs := a_psigs x; a_sighash := a_sighash x; a_redeem := a_redeem x; a_wscript := a_wscript x; a_bip32 := a_bip32 x; a_fss := a_fss x; a_fsw := a_fsw x; a_issval := a_issval x; a_isskeys := a_isskeys x; a_entropy := a_entropy x; a_nonce := a_nonce x; a_blindediss := a_blindediss x; a_issblind := a_issblind x; a_urp := a_urp x; a_expval := a_expval x; a_valproof := a_valproof x; a_expasset := a_expasset x; a_assetproof := a_assetproof x; a_tapkeysig := a_tapkeysig x; a_tapss := a_tapss x; a_tapleaves := a_tapleaves x; a_tapbip32 := a_tapbip32 x; a_tapik := a_tapik x; a_tapmr := a_tapmr x |}.
-Definition set_a_psigs (v : list (N * N)) (x : aux) : aux := {| a_nw := a_nw x; a_nwrp := a_nwrp x; a_w := a_w x; a_psigs := v; a_sighash := a_sighash x; a_redeem := a_redeem x; a_wscript := a_wscript x; a_bip32 := a_bip32 x; a_fss := a_fss x; a_fsw := a_fsw x; a_issval := a_issval x; a_isskeys := a_isskeys x; a_entropy := a_entropy x; a_nonce := a_nonce x; a_blindediss := a_blindediss x; a_issblind := a_issblind x; a_urp := a_urp x; a_expval := a_expval x; a_valproof := a_valproof x; a_expasset := a_expasset x; a_assetproof := a_assetproof x; a_tapkeysig := a_tapkeysig x; a_tapss := a_tapss x; a_tapleaves := a_tapleaves x; a_tapbip32 := a_tapbip32 x; a_tapik := a_tapik x; a_tapmr := a_tapmr x |}.
-Definition set_a_sighash (v : N) (x : aux) : aux := {| a_nw := a_nw x; a_nwrp := a_nwrp x; a_w := a_w x; a_psigs := a_psigs x; a_sighash := v; a_redeem := a_redeem x; a_wscript := a_wscript x; a_bip32 := a_bip32 x; a_fss := a_fss x; a_fsw := a_fsw x; a_issval := a_issval x; a_isskeys := a_isskeys x; a_entropy := a_entropy x; a_nonce := a_nonce x; a_blindediss := a_blindediss x; a_issblind := a_issblind x; a_urp := a_urp x; a_expval := a_expval x; a_valproof := a_valproof x; a_expasset := a_expasset x; a_assetproof := a_assetproof x; a_tapkeysig := a_tapkeysig x; a_tapss := a_tapss x; a_tapleaves := a_tapleaves x; a_tapbip32 := a_tapbip32 x; a_tapik := a_tapik x; a_tapmr := a_tapmr x |}.
-Definition set_a_redeem (v : option script) (x : aux) : aux := {| a_nw := a_nw x; a_nwrp := a_nwrp x; a_w := a_w x; a_psigs := a_psigs x; a_sighash := a_sighash x; a_redeem := v; a_wscript := a_wscript x; a_bip32 := a_bip32 x; a_fss := a_fss x; a_fsw := a_fsw x; a_issval := a_issval x; a_isskeys := a_isskeys x; a_entropy := a_entropy x; a_nonce := a_nonce x; a_blindediss := a_blindediss x; a_issblind := a_issblind x; a_urp := a_urp x; a_expval := a_expval x; a_valproof := a_valproof x; a_expasset := a_expasset x; a_assetproof := a_assetproof x; a_tapkeysig := a_tapkeysig x; a_tapss := a_tapss x; a_tapleaves := a_tapleaves x; a_tapbip32 := a_tapbip32 x; a_tapik := a_tapik x; a_tapmr := a_tapmr x |}.
-Definition set_a_wscript (v : option script) (x : aux) : aux := {| a_nw := a_nw x; a_nwrp := a_nwrp x; a_w := a_w x; a_psigs := a_psigs x; a_sighash := a_sighash x; a_redeem := a_redeem x; a_wscript := v; a_bip32 := a_bip32 x; a_fss := a_fss x; a_fsw := a_fsw x; a_issval := a_issval x; a_isskeys := a_isskeys x; a_entropy := a_entropy x; a_nonce := a_nonce x; a_blindediss := a_blindediss x; a_issblind := a_issblind x; a_urp := a_urp x; a_expval := a_expval x; a_valproof := a_valproof x; a_expasset := a_expasset x; a_assetproof := a_assetproof x; a_tapkeysig := a_tapkeysig x; a_tapss := a_tapss x; a_tapleaves := a_tapleaves x; a_tapbip32 := a_tapbip32 x; a_tapik := a_tapik x; a_tapmr := a_tapmr x |}.
-Definition set_a_bip32 (v : list (N * bool)) (x : aux) : aux := {| a_nw := a_nw x; a_nwrp := a_nwrp x; a_w := a_w x; a_psigs := a_psigs x; a_sighash := a_sighash x; a_redeem := a_redeem x; a_wscript := a_wscript x; a_bip32 := v; a_fss := a_fss x; a_fsw := a_fsw x; a_issval := a_issval x; a_isskeys := a_isskeys x; a_entropy := a_entropy x; a_nonce := a_nonce x; a_blindediss := a_blindediss x; a_issblind := a_issblind x; a_urp := a_urp x; a_expval := a_expval x; a_valproof := a_valproof x; a_expasset := a_expasset x; a_assetproof := a_assetproof x; a_tapkeysig := a_tapkeysig x; a_tapss := a_tapss x; a_tapleaves := a_tapleaves x; a_tapbip32 := a_tapbip32 x; a_tapik := a_tapik x; a_tapmr := a_tapmr x |}.
-Definition set_a_fss (v : bool) (x : aux) : aux := {| a_nw := a_nw x; a_nwrp := a_nwrp x; a_w := a_w x; a_psigs := a_psigs x; a_sighash := a_sighash x; a_redeem := a_redeem x; a_wscript := a_wscript x; a_bip32 := a_bip32 x; a_fss := v; a_fsw := a_fsw x; a_issval := a_issval x; a_isskeys := a_isskeys x; a_entropy := a_entropy x; a_nonce := a_nonce x; a_blindediss := a_blindediss x; a_issblind := a_issblind x; a_urp := a_urp x; a_expval := a_expval x; a_valproof := a_valproof x; a_expasset := a_expasset x; a_assetproof := a_assetproof x; a_tapkeysig := a_tapkeysig x; a_tapss := a_tapss x; a_tapleaves := a_tapleaves x; a_tapbip32 := a_tapbip32 x; a_tapik := a_tapik x; a_tapmr := a_tapmr x |}.
-Definition set_a_fsw (v : bool) (x : aux) : aux := {| a_nw := a_nw x; a_nwrp := a_nwrp x; a_w := a_w x; a_psigs := a_psigs x; a_sighash := a_sighash x; a_redeem := a_redeem x; a_wscript := a_wscript x; a_bip32 := a_bip32 x; a_fss := a_fss x; a_fsw := v; a_issval := a_issval x; a_isskeys := a_isskeys x; a_entropy := a_entropy x; a_nonce := a_nonce x; a_blindediss := a_blindediss x; a_issblind := a_issblind x; a_urp := a_urp x; a_expval := a_expval x; a_valproof := a_valproof x; a_expasset := a_expasset x; a_assetproof := a_assetproof x; a_tapkeysig := a_tapkeysig x; a_tapss := a_tapss x; a_tapleaves := a_tapleaves x; a_tapbip32 := a_tapbip32 x; a_tapik := a_tapik x; a_tapmr := a_tapmr x |}.
-Definition set_a_issval (v : N) (x : aux) : aux := {| a_nw := a_nw x; a_nwrp := a_nwrp x; a_w := a_w x; a_psigs := a_psigs x; a_sighash := a_sighash x; a_redeem := a_redeem x; a_wscript := a_wscript x; a_bip32 := a_bip32 x; a_fss := a_fss x; a_fsw := a_fsw x; a_issval := v; a_isskeys := a_isskeys x; a_entropy := a_entropy x; a_nonce := a_nonce x; a_blindediss := a_blindediss x; a_issblind := a_issblind x; a_urp := a_urp x; a_expval := a_expval x; a_valproof := a_valproof x; a_expasset := a_expasset x; a_assetproof := a_assetproof x; a_tapkeysig := a_tapkeysig x; a_tapss := a_tapss x; a_tapleaves := a_tapleaves x; a_tapbip32 := a_tapbip32 x; a_tapik := a_tapik x; a_tapmr := a_tapmr x |}.
-Definition set_a_isskeys (v : N) (x : aux) : aux := {| a_nw := a_nw x; a_nwrp := a_nwrp x; a_w := a_w x; a_psigs := a_psigs x; a_sighash := a_sighash x; a_redeem := a_redeem x; a_wscript := a_wscript x; a_bip32 := a_bip32 x; a_fss := a_fss x; a_fsw := a_fsw x; a_issval := a_issval x; a_isskeys := v; a_entropy := a_entropy x; a_nonce := a_nonce x; a_blindediss := a_blindediss x; a_issblind := a_issblind x; a_urp := a_urp x; a_expval := a_expval x; a_valproof := a_valproof x; a_expasset := a_expasset x; a_assetproof := a_assetproof x; a_tapkeysig := a_tapkeysig x; a_tapss := a_tapss x; a_tapleaves := a_tapleaves x; a_tapbip32 := a_tapbip32 x; a_tapik := a_tapik x; a_tapmr := a_tapmr x |}.
-Definition set_a_entropy (v : bool) (x : aux) : aux := {| a_nw := a_nw x; a_nwrp := a_nwrp x; a_w := a_w x; a_psigs := a_psigs x; a_sighash := a_sighash x; a_redeem := a_redeem x; a_wscript := a_wscript x; a_bip32 := a_bip32 x; a_fss := a_fss x; a_fsw := a_fsw x; a_issval := a_issval x; a_isskeys := a_isskeys x; a_entropy := v; a_nonce := a_nonce x; a_blindediss := a_blindediss x; a_issblind := a_issblind x; a_urp := a_urp x; a_expval := a_expval x; a_valproof := a_valproof x; a_expasset := a_expasset x; a_assetproof := a_assetproof x; a_tapkeysig := a_tapkeysig x; a_tapss := a_tapss x; a_tapleaves := a_tapleaves x; a_tapbip32 := a_tapbip32 x; a_tapik := a_tapik x; a_tapmr := a_tapmr x |}.
-Definition set_a_nonce (v : bool) (x : aux) : aux := {| a_nw := a_nw x; a_nwrp := a_nwrp x; a_w := a_w x; a_psigs := a_psigs x; a_sighash := a_sighash x; a_redeem := a_redeem x; a_wscript := a_wscript x; a_bip32 := a_bip32 x; a_fss := a_fss x; a_fsw := a_fsw x; a_issval := a_issval x; a_isskeys := a_isskeys x; a_entropy := a_entropy x; a_nonce := v; a_blindediss := a_blindediss x; a_issblind := a_issblind x; a_urp := a_urp x; a_expval := a_expval x; a_valproof := a_valproof x; a_expasset := a_expasset x; a_assetproof := a_assetproof x; a_tapkeysig := a_tapkeysig x; a_tapss := a_tapss x; a_tapleaves := a_tapleaves x; a_tapbip32 := a_tapbip32 x; a_tapik := a_tapik x; a_tapmr := a_tapmr x |}.
-Definition set_a_blindediss (v : option bool) (x : aux) : aux := {| a_nw := a_nw x; a_nwrp := a_nwrp x; a_w := a_w x; a_psigs := a_psigs x; a_sighash := a_sighash x; a_redeem := a_redeem x; a_wscript := a_wscript x; a_bip32 := a_bip32 x; a_fss := a_fss x; a_fsw := a_fsw x; a_issval := a_issval x; a_isskeys := a_isskeys x; a_entropy := a_entropy x; a_nonce := a_nonce x; a_blindediss := v; a_issblind := a_issblind x; a_urp := a_urp x; a_expval := a_expval x; a_valproof := a_valproof x; a_expasset := a_expasset x; a_assetproof := a_assetproof x; a_tapkeysig := a_tapkeysig x; a_tapss := a_tapss x; a_tapleaves := a_tapleaves x; a_tapbip32 := a_tapbip32 x; a_tapik := a_tapik x; a_tapmr := a_tapmr x |}.
-Definition set_a_issblind (v : bool) (x : aux) : aux := {| a_nw := a_nw x; a_nwrp := a_nwrp x; a_w := a_w x; a_psigs := a_psigs x; a_sighash := a_sighash x; a_redeem := a_redeem x; a_wscript := a_wscript x; a_bip32 := a_bip32 x; a_fss := a_fss x; a_fsw := a_fsw x; a_issval := a_issval x; a_isskeys := a_isskeys x; a_entropy := a_entropy x; a_nonce := a_nonce x; a_blindediss := a_blindediss x; a_issblind := v; a_urp := a_urp x; a_expval := a_expval x; a_valproof := a_valproof x; a_expasset := a_expasset x; a_assetproof := a_assetproof x; a_tapkeysig := a_tapkeysig x; a_tapss := a_tapss x; a_tapleaves := a_tapleaves x; a_tapbip32 := a_tapbip32 x; a_tapik := a_tapik x; a_tapmr := a_tapmr x |}.
-Definition set_a_urp (v : bool) (x : aux) : aux := {| a_nw := a_nw x; a_nwrp := a_nwrp x; a_w := a_w x; a_psigs := a_psigs x; a_sighash := a_sighash x; a_redeem := a_redeem x; a_wscript := a_wscript x; a_bip32 := a_bip32 x; a_fss := a_fss x; a_fsw := a_fsw x; a_issval := a_issval x; a_isskeys := a_isskeys x; a_entropy := a_entropy x; a_nonce := a_nonce x; a_blindediss := a_blindediss x; a_issblind := a_issblind x; a_urp := v; a_expval := a_expval x; a_valproof := a_valproof x; a_expasset := a_expasset x; a_assetproof := a_assetproof x; a_tapkeysig := a_tapkeysig x; a_tapss := a_tapss x; a_tapleaves := a_tapleaves x; a_tapbip32 := a_tapbip32 x; a_tapik := a_tapik x; a_tapmr := a_tapmr x |}.
-Definition set_a_expval (v : N) (x : aux) : aux := {| a_nw := a_nw x; a_nwrp := a_nwrp x; a_w := a_w x; a_psigs := a_psigs x; a_sighash := a_sighash x; a_redeem := a_redeem x; a_wscript := a_wscript x; a_bip32 := a_bip32 x; a_fss := a_fss x; a_fsw := a_fsw x; a_issval := a_issval x; a_isskeys := a_isskeys x; a_entropy := a_entropy x; a_nonce := a_nonce x; a_blindediss := a_blindediss x; a_issblind := a_issblind x; a_urp := a_urp x; a_expval := v; a_valproof := a_valproof x; a_expasset := a_expasset x; a_assetproof := a_assetproof x; a_tapkeysig := a_tapkeysig x; a_tapss := a_tapss x; a_tapleaves := a_tapleaves x; a_tapbip32 := a_tapbip32 x; a_tapik := a_tapik x; a_tapmr := a_tapmr x |}.
-Definition set_a_valproof (v : bool) (x : aux) : aux := {| a_nw := a_nw x; a_nwrp := a_nwrp x; a_w := a_w x; a_psigs := a_psigs x; a_sighash := a_sighash x; a_redeem := a_redeem x; a_wscript := a_wscript x; a_bip32 := a_bip32 x; a_fss := a_fss x; a_fsw := a_fsw x; a_issval := a_issval x; a_isskeys := a_isskeys x; a_entropy := a_entropy x; a_nonce := a_nonce x; a_blindediss := a_blindediss x; a_issblind := a_issblind x; a_urp := a_urp x; a_expval := a_expval x; a_valproof := v; a_expasset := a_expasset x; a_assetproof := a_assetproof x; a_tapkeysig := a_tapkeysig x; a_tapss := a_tapss x; a_tapleaves := a_tapleaves x; a_tapbip32 := a_tapbip32 x; a_tapik := a_tapik x; a_tapmr := a_tapmr x |}.
-Definition set_a_expasset (v : N) (x : aux) : aux := {| a_nw := a_nw x; a_nwrp := a_nwrp x; a_w := a_w x; a_psigs := a_psigs x; a_sighash := a_sighash x; a_redeem := a_redeem x; a_wscript := a_wscript x; a_bip32 := a_bip32 x; a_fss := a_fss x; a_fsw := a_fsw x; a_issval := a_issval x; a_isskeys := a_isskeys x; a_entropy := a_entropy x; a_nonce := a_nonce x; a_blindediss := a_blindediss x; a_issblind := a_issblind x; a_urp := a_urp x; a_expval := a_expval x; a_valproof := a_valproof x; a_expasset := v; a_assetproof := a_assetproof x; a_tapkeysig := a_tapkeysig x; a_tapss := a_tapss x; a_tapleaves := a_tapleaves x; a_tapbip32 := a_tapbip32 x; a_tapik := a_tapik x; a_tapmr := a_tapmr x |}.
-Definition set_a_assetproof (v : bool) (x : aux) : aux := {| a_nw := a_nw x; a_nwrp := a_nwrp x; a_w := a_w x; a_psigs := a_psigs x; a_sighash := a_sighash x; a_redeem := a_redeem x; a_wscript := a_wscript x; a_bip32 := a_bip32 x; a_fss := a_fss x; a_fsw := a_fsw x; a_issval := a_issval x; a_isskeys := a_isskeys x; a_entropy := a_entropy x; a_nonce := a_nonce x; a_blindediss := a_blindediss x; a_issblind := a_issblind x; a_urp := a_urp x; a_expval := a_expval x; a_valproof := a_valproof x; a_expasset := a_expasset x; a_assetproof := v; a_tapkeysig := a_tapkeysig x; a_tapss := a_tapss x; a_tapleaves := a_tapleaves x; a_tapbip32 := a_tapbip32 x; a_tapik := a_tapik x; a_tapmr := a_tapmr x |}.
-Definition set_a_tapkeysig (v : N) (x : aux) : aux := {| a_nw := a_nw x; a_nwrp := a_nwrp x; a_w := a_w x; a_psigs := a_psigs x; a_sighash := a_sighash x; a_redeem := a_redeem x; a_wscript := a_wscript x; a_bip32 := a_bip32 x; a_fss := a_fss x; a_fsw := a_fsw x; a_issval := a_issval x; a_isskeys := a_isskeys x; a_entropy := a_entropy x; a_nonce := a_nonce x; a_blindediss := a_blindediss x; a_issblind := a_issblind x; a_urp := a_urp x; a_expval := a_expval x; a_valproof := a_valproof x; a_expasset := a_expasset x; a_assetproof := a_assetproof x; a_tapkeysig := v; a_tapss := a_tapss x; a_tapleaves := a_tapleaves x; a_tapbip32 := a_tapbip32 x; a_tapik := a_tapik x; a_tapmr := a_tapmr x |}.
-Definition set_a_tapss (v : list tss) (x : aux) : aux := {| a_nw := a_nw x; a_nwrp := a_nwrp x; a_w := a_w x; a_psigs := a_psigs x; a_sighash := a_sighash x; a_redeem := a_redeem x; a_wscript := a_wscript x; a_bip32 := a_bip32 x; a_fss := a_fss x; a_fsw := a_fsw x; a_issval := a_issval x; a_isskeys := a_isskeys x; a_entropy := a_entropy x; a_nonce := a_nonce x; a_blindediss := a_blindediss x; a_issblind := a_issblind x; a_urp := a_urp x; a_expval := a_expval x; a_valproof := a_valproof x; a_expasset := a_expasset x; a_assetproof := a_assetproof x; a_tapkeysig := a_tapkeysig x; a_tapss := v; a_tapleaves := a_tapleaves x; a_tapbip32 := a_tapbip32 x; a_tapik := a_tapik x; a_tapmr := a_tapmr x |}.
-Definition set_a_tapleaves (v : list N) (x : aux) : aux := {| a_nw := a_nw x; a_nwrp := a_nwrp x; a_w := a_w x; a_psigs := a_psigs x; a_sighash := a_sighash x; a_redeem := a_redeem x; a_wscript := a_wscript x; a_bip32 := a_bip32 x; a_fss := a_fss x; a_fsw := a_fsw x; a_issval := a_issval x; a_isskeys := a_isskeys x; a_entropy := a_entropy x; a_nonce := a_nonce x; a_blindediss := a_blindediss x; a_issblind := a_issblind x; a_urp := a_urp x; a_expval := a_expval x; a_valproof := a_valproof x; a_expasset := a_expasset x; a_assetproof := a_assetproof x; a_tapkeysig := a_tapkeysig x; a_tapss := a_tapss x; a_tapleaves := v; a_tapbip32 := a_tapbip32 x; a_tapik := a_tapik x; a_tapmr := a_tapmr x |}.
-Definition set_a_tapbip32 (v : list tbd) (x : aux) : aux := {| a_nw := a_nw x; a_nwrp := a_nwrp x; a_w := a_w x; a_psigs := a_psigs x; a_sighash := a_sighash x; a_redeem := a_redeem x; a_wscript := a_wscript x; a_bip32 := a_bip32 x; a_fss := a_fss x; a_fsw := a_fsw x; a_issval := a_issval x; a_isskeys := a_isskeys x; a_entropy := a_entropy x; a_nonce := a_nonce x; a_blindediss := a_blindediss x; a_issblind := a_issblind x; a_urp := a_urp x; a_expval := a_expval x; a_valproof := a_valproof x; a_expasset := a_expasset x; a_assetproof := a_assetproof x; a_tapkeysig := a_tapkeysig x; a_tapss := a_tapss x; a_tapleaves := a_tapleaves x; a_tapbip32 := v; a_tapik := a_tapik x; a_tapmr := a_tapmr x |}.
-Definition set_a_tapik (v : N) (x : aux) : aux := {| a_nw := a_nw x; a_nwrp := a_nwrp x; a_w := a_w x; a_psigs := a_psigs x; a_sighash := a_sighash x; a_redeem := a_redeem x; a_wscript := a_wscript x; a_bip32 := a_bip32 x; a_fss := a_fss x; a_fsw := a_fsw x; a_issval := a_issval x; a_isskeys := a_isskeys x; a_entropy := a_entropy x; a_nonce := a_nonce x; a_blindediss := a_blindediss x; a_issblind := a_issblind x; a_urp := a_urp x; a_expval := a_expval x; a_valproof := a_valproof x; a_expasset := a_expasset x; a_assetproof := a_assetproof x; a_tapkeysig := a_tapkeysig x; a_tapss := a_tapss x; a_tapleaves := a_tapleaves x; a_tapbip32 := a_tapbip32 x; a_tapik := v; a_tapmr := a_tapmr x |}.
-Definition set_a_tapmr (v : N) (x : aux) : aux := {| a_nw := a_nw x; a_nwrp := a_nwrp x; a_w := a_w x; a_psigs := a_psigs x; a_sighash := a_sighash x; a_redeem := a_redeem x; a_wscript := a_wscript x; a_bip32 := a_bip32 x; a_fss := a_fss x; a_fsw := a_fsw x; a_issval := a_issval x; a_isskeys := a_isskeys x; a_entropy := a_entropy x; a_nonce := a_nonce x; a_blindediss := a_blindediss x; a_issblind := a_issblind x; a_urp := a_urp x; a_expval := a_expval x; a_valproof := a_valproof x; a_expasset := a_expasset x; a_assetproof := a_assetproof x; a_tapkeysig := a_tapkeysig x; a_tapss := a_tapss x; a_tapleaves := a_tapleaves x; a_tapbip32 := a_tapbip32 x; a_tapik := a_tapik x; a_tapmr := v |}.
+Definition set_a_nw (v : bool) (x : aux) : aux := {| a_nw := v; a_nwrp := a_nwrp x; a_w := a_w x; a_psigs := a_psigs x; a_sighash := a_sighash x; a_redeem := a_redeem x; a_wscript := a_wscript x; a_bip32 := a_bip32 x; a_fss := a_fss x; a_fsw := a_fsw x; a_issval := a_issval x; a_isskeys := a_isskeys x; a_entropy := a_entropy x; a_nonce := a_nonce x; a_blindediss := a_blindediss x; a_issblind := a_issblind x; a_issbad := a_issbad x; a_urp := a_urp x; a_expval := a_expval x; a_valproof := a_valproof x; a_expasset := a_expasset x; a_assetproof := a_assetproof x; a_tapkeysig := a_tapkeysig x; a_tapss := a_tapss x; a_tapleaves := a_tapleaves x; a_tapbip32 := a_tapbip32 x; a_tapik := a_tapik x; a_tapmr := a_tapmr x |}.
+Definition set_a_nwrp (v : bool) (x : aux) : aux := {| a_nw := a_nw x; a_nwrp := v; a_w := a_w x; a_psigs := a_psigs x; a_sighash := a_sighash x; a_redeem := a_redeem x; a_wscript := a_wscript x; a_bip32 := a_bip32 x; a_fss := a_fss x; a_fsw := a_fsw x; a_issval := a_issval x; a_isskeys := a_isskeys x; a_entropy := a_entropy x; a_nonce := a_nonce x; a_blindediss := a_blindediss x; a_issblind := a_issblind x; a_issbad := a_issbad x; a_urp := a_urp x; a_expval := a_expval x; a_valproof := a_valproof x; a_expasset := a_expasset x; a_assetproof := a_assetproof x; a_tapkeysig := a_tapkeysig x; a_tapss := a_tapss x; a_tapleaves := a_tapleaves x; a_tapbip32 := a_tapbip32 x; a_tapik := a_tapik x; a_tapmr := a_tapmr x |}.
+Definition set_a_w (v : option utxo) (x : aux) : aux := {| a_nw := a_nw x; a_nwrp := a_nwrp x; a_w := v; a_psigs := a_psigs x; a_sighash := a_sighash x; a_redeem := a_redeem x; a_wscript := a_wscript x; a_bip32 := a_bip32 x; a_fss := a_fss x; a_fsw := a_fsw x; a_issval := a_issval x; a_isskeys := a_isskeys x; a_entropy := a_entropy x; a_nonce := a_nonce x; a_blindediss := a_blindediss x; a_issblind := a_issblind x; a_issbad := a_issbad x; a_urp := a_urp x; a_expval := a_expval x; a_valproof := a_valproof x; a_expasset := a_expasset x; a_assetproof := a_assetproof x; a_tapkeysig := a_tapkeysig x; a_tapss := a_tapss x; a_tapleaves := a_tapleaves x; a_tapbip32 := a_tapbip32 x; a_tapik := a_tapik x; a_tapmr := a_tapmr x |}.
+Definition set_a_psigs (v : list (N * N)) (x : aux) : aux := {| a_nw := a_nw x; a_nwrp := a_nwrp x; a_w := a_w x; a_psigs := v; a_sighash := a_sighash x; a_redeem := a_redeem x; a_wscript := a_wscript x; a_bip32 := a_bip32 x; a_fss := a_fss x; a_fsw := a_fsw x; a_issval := a_issval x; a_isskeys := a_isskeys x; a_entropy := a_entropy x; a_nonce := a_nonce x; a_blindediss := a_blindediss x; a_issblind := a_issblind x; a_issbad := a_issbad x; a_urp := a_urp x; a_expval := a_expval x; a_valproof := a_valproof x; a_expasset := a_expasset x; a_assetproof := a_assetproof x; a_tapkeysig := a_tapkeysig x; a_tapss := a_tapss x; a_tapleaves := a_tapleaves x; a_tapbip32 := a_tapbip32 x; a_tapik := a_tapik x; a_tapmr := a_tapmr x |}.
+Definition set_a_sighash (v : N) (x : aux) : aux := {| a_nw := a_nw x; a_nwrp := a_nwrp x; a_w := a_w x; a_psigs := a_psigs x; a_sighash := v; a_redeem := a_redeem x; a_wscript := a_wscript x; a_bip32 := a_bip32 x; a_fss := a_fss x; a_fsw := a_fsw x; a_issval := a_issval x; a_isskeys := a_isskeys x; a_entropy := a_entropy x; a_nonce := a_nonce x; a_blindediss := a_blindediss x; a_issblind := a_issblind x; a_issbad := a_issbad x; a_urp := a_urp x; a_expval := a_expval x; a_valproof := a_valproof x; a_expasset := a_expasset x; a_assetproof := a_assetproof x; a_tapkeysig := a_tapkeysig x; a_tapss := a_tapss x; a_tapleaves := a_tapleaves x; a_tapbip32 := a_tapbip32 x; a_tapik := a_tapik x; a_tapmr := a_tapmr x |}.
+Definition set_a_redeem (v : option script) (x : aux) : aux := {| a_nw := a_nw x; a_nwrp := a_nwrp x; a_w := a_w x; a_psigs := a_psigs x; a_sighash := a_sighash x; a_redeem := v; a_wscript := a_wscript x; a_bip32 := a_bip32 x; a_fss := a_fss x; a_fsw := a_fsw x; a_issval := a_issval x; a_isskeys := a_isskeys x; a_entropy := a_entropy x; a_nonce := a_nonce x; a_blindediss := a_blindediss x; a_issblind := a_issblind x; a_issbad := a_issbad x; a_urp := a_urp x; a_expval := a_expval x; a_valproof := a_valproof x; a_expasset := a_expasset x; a_assetproof := a_assetproof x; a_tapkeysig := a_tapkeysig x; a_tapss := a_tapss x; a_tapleaves := a_tapleaves x; a_tapbip32 := a_tapbip32 x; a_tapik := a_tapik x; a_tapmr := a_tapmr x |}.
+Definition set_a_wscript (v : option script) (x : aux) : aux := {| a_nw := a_nw x; a_nwrp := a_nwrp x; a_w := a_w x; a_psigs := a_psigs x; a_sighash := a_sighash x; a_redeem := a_redeem x; a_wscript := v; a_bip32 := a_bip32 x; a_fss := a_fss x; a_fsw := a_fsw x; a_issval := a_issval x; a_isskeys := a_isskeys x; a_entropy := a_entropy x; a_nonce := a_nonce x; a_blindediss := a_blindediss x; a_issblind := a_issblind x; a_issbad := a_issbad x; a_urp := a_urp x; a_expval := a_expval x; a_valproof := a_valproof x; a_expasset := a_expasset x; a_assetproof := a_assetproof x; a_tapkeysig := a_tapkeysig x; a_tapss := a_tapss x; a_tapleaves := a_tapleaves x; a_tapbip32 := a_tapbip32 x; a_tapik := a_tapik x; a_tapmr := a_tapmr x |}.
+Definition set_a_bip32 (v : list (N * bool)) (x : aux) : aux := {| a_nw := a_nw x; a_nwrp := a_nwrp x; a_w := a_w x; a_psigs := a_psigs x; a_sighash := a_sighash x; a_redeem := a_redeem x; a_wscript := a_wscript x; a_bip32 := v; a_fss := a_fss x; a_fsw := a_fsw x; a_issval := a_issval x; a_isskeys := a_isskeys x; a_entropy := a_entropy x; a_nonce := a_nonce x; a_blindediss := a_blindediss x; a_issblind := a_issblind x; a_issbad := a_issbad x; a_urp := a_urp x; a_expval := a_expval x; a_valproof := a_valproof x; a_expasset := a_expasset x; a_assetproof := a_assetproof x; a_tapkeysig := a_tapkeysig x; a_tapss := a_tapss x; a_tapleaves := a_tapleaves x; a_tapbip32 := a_tapbip32 x; a_tapik := a_tapik x; a_tapmr := a_tapmr x |}.
+Definition set_a_fss (v : bool) (x : aux) : aux := {| a_nw := a_nw x; a_nwrp := a_nwrp x; a_w := a_w x; a_psigs := a_psigs x; a_sighash := a_sighash x; a_redeem := a_redeem x; a_wscript := a_wscript x; a_bip32 := a_bip32 x; a_fss := v; a_fsw := a_fsw x; a_issval := a_issval x; a_isskeys := a_isskeys x; a_entropy := a_entropy x; a_nonce := a_nonce x; a_blindediss := a_blindediss x; a_issblind := a_issblind x; a_issbad := a_issbad x; a_urp := a_urp x; a_expval := a_expval x; a_valproof := a_valproof x; a_expasset := a_expasset x; a_assetproof := a_assetproof x; a_tapkeysig := a_tapkeysig x; a_tapss := a_tapss x; a_tapleaves := a_tapleaves x; a_tapbip32 := a_tapbip32 x; a_tapik := a_tapik x; a_tapmr := a_tapmr x |}.
+Definition set_a_fsw (v : bool) (x : aux) : aux := {| a_nw := a_nw x; a_nwrp := a_nwrp x; a_w := a_w x; a_psigs := a_psigs x; a_sighash := a_sighash x; a_redeem := a_redeem x; a_wscript := a_wscript x; a_bip32 := a_bip32 x; a_fss := a_fss x; a_fsw := v; a_issval := a_issval x; a_isskeys := a_isskeys x; a_entropy := a_entropy x; a_nonce := a_nonce x; a_blindediss := a_blindediss x; a_issblind := a_issblind x; a_issbad := a_issbad x; a_urp := a_urp x; a_expval := a_expval x; a_valproof := a_valproof x; a_expasset := a_expasset x; a_assetproof := a_assetproof x; a_tapkeysig := a_tapkeysig x; a_tapss := a_tapss x; a_tapleaves := a_tapleaves x; a_tapbip32 := a_tapbip32 x; a_tapik := a_tapik x; a_tapmr := a_tapmr x |}.
+Definition set_a_issval (v : N) (x : aux) : aux := {| a_nw := a_nw x; a_nwrp := a_nwrp x; a_w := a_w x; a_psigs := a_psigs x; a_sighash := a_sighash x; a_redeem := a_redeem x; a_wscript := a_wscript x; a_bip32 := a_bip32 x; a_fss := a_fss x; a_fsw := a_fsw x; a_issval := v; a_isskeys := a_isskeys x; a_entropy := a_entropy x; a_nonce := a_nonce x; a_blindediss := a_blindediss x; a_issblind := a_issblind x; a_issbad := a_issbad x; a_urp := a_urp x; a_expval := a_expval x; a_valproof := a_valproof x; a_expasset := a_expasset x; a_assetproof := a_assetproof x; a_tapkeysig := a_tapkeysig x; a_tapss := a_tapss x; a_tapleaves := a_tapleaves x; a_tapbip32 := a_tapbip32 x; a_tapik := a_tapik x; a_tapmr := a_tapmr x |}.
+Definition set_a_isskeys (v : N) (x : aux) : aux := {| a_nw := a_nw x; a_nwrp := a_nwrp x; a_w := a_w x; a_psigs := a_psigs x; a_sighash := a_sighash x; a_redeem := a_redeem x; a_wscript := a_wscript x; a_bip32 := a_bip32 x; a_fss := a_fss x; a_fsw := a_fsw x; a_issval := a_issval x; a_isskeys := v; a_entropy := a_entropy x; a_nonce := a_nonce x; a_blindediss := a_blindediss x; a_issblind := a_issblind x; a_issbad := a_issbad x; a_urp := a_urp x; a_expval := a_expval x; a_valproof := a_valproof x; a_expasset := a_expasset x; a_assetproof := a_assetproof x; a_tapkeysig := a_tapkeysig x; a_tapss := a_tapss x; a_tapleaves := a_tapleaves x; a_tapbip32 := a_tapbip32 x; a_tapik := a_tapik x; a_tapmr := a_tapmr x |}.
+Definition set_a_entropy (v : bool) (x : aux) : aux := {| a_nw := a_nw x; a_nwrp := a_nwrp x; a_w := a_w x; a_psigs := a_psigs x; a_sighash := a_sighash x; a_redeem := a_redeem x; a_wscript := a_wscript x; a_bip32 := a_bip32 x; a_fss := a_fss x; a_fsw := a_fsw x; a_issval := a_issval x; a_isskeys := a_isskeys x; a_entropy := v; a_nonce := a_nonce x; a_blindediss := a_blindediss x; a_issblind := a_issblind x; a_issbad := a_issbad x; a_urp := a_urp x; a_expval := a_expval x; a_valproof := a_valproof x; a_expasset := a_expasset x; a_assetproof := a_assetproof x; a_tapkeysig := a_tapkeysig x; a_tapss := a_tapss x; a_tapleaves := a_tapleaves x; a_tapbip32 := a_tapbip32 x; a_tapik := a_tapik x; a_tapmr := a_tapmr x |}.
+Definition set_a_nonce (v : bool) (x : aux) : aux := {| a_nw := a_nw x; a_nwrp := a_nwrp x; a_w := a_w x; a_psigs := a_psigs x; a_sighash := a_sighash x; a_redeem := a_redeem x; a_wscript := a_wscript x; a_bip32 := a_bip32 x; a_fss := a_fss x; a_fsw := a_fsw x; a_issval := a_issval x; a_isskeys := a_isskeys x; a_entropy := a_entropy x; a_nonce := v; a_blindediss := a_blindediss x; a_issblind := a_issblind x; a_issbad := a_issbad x; a_urp := a_urp x; a_expval := a_expval x; a_valproof := a_valproof x; a_expasset := a_expasset x; a_assetproof := a_assetproof x; a_tapkeysig := a_tapkeysig x; a_tapss := a_tapss x; a_tapleaves := a_tapleaves x; a_tapbip32 := a_tapbip32 x; a_tapik := a_tapik x; a_tapmr := a_tapmr x |}.
+Definition set_a_blindediss (v : option bool) (x : aux) : aux := {| a_nw := a_nw x; a_nwrp := a_nwrp x; a_w := a_w x; a_psigs := a_psigs x; a_sighash := a_sighash x; a_redeem := a_redeem x; a_wscript := a_wscript x; a_bip32 := a_bip32 x; a_fss := a_fss x; a_fsw := a_fsw x; a_issval := a_issval x; a_isskeys := a_isskeys x; a_entropy := a_entropy x; a_nonce := a_nonce x; a_blindediss := v; a_issblind := a_issblind x; a_issbad := a_issbad x; a_urp := a_urp x; a_expval := a_expval x; a_valproof := a_valproof x; a_expasset := a_expasset x; a_assetproof := a_assetproof x; a_tapkeysig := a_tapkeysig x; a_tapss := a_tapss x; a_tapleaves := a_tapleaves x; a_tapbip32 := a_tapbip32 x; a_tapik := a_tapik x; a_tapmr := a_tapmr x |}.
+Definition set_a_issblind (v : bool) (x : aux) : aux := {| a_nw := a_nw x; a_nwrp := a_nwrp x; a_w := a_w x; a_psigs := a_psigs x; a_sighash := a_sighash x; a_redeem := a_redeem x; a_wscript := a_wscript x; a_bip32 := a_bip32 x; a_fss := a_fss x; a_fsw := a_fsw x; a_issval := a_issval x; a_isskeys := a_isskeys x; a_entropy := a_entropy x; a_nonce := a_nonce x; a_blindediss := a_blindediss x; a_issblind := v; a_issbad := a_issbad x; a_urp := a_urp x; a_expval := a_expval x; a_valproof := a_valproof x; a_expasset := a_expasset x; a_assetproof := a_assetproof x; a_tapkeysig := a_tapkeysig x; a_tapss := a_tapss x; a_tapleaves := a_tapleaves x; a_tapbip32 := a_tapbip32 x; a_tapik := a_tapik x; a_tapmr := a_tapmr x |}.
+Definition set_a_issbad (v : bool) (x : aux) : aux := {| a_nw := a_nw x; a_nwrp := a_nwrp x; a_w := a_w x; a_psigs := a_psigs x; a_sighash := a_sighash x; a_redeem := a_redeem x; a_wscript := a_wscript x; a_bip32 := a_bip32 x; a_fss := a_fss x; a_fsw := a_fsw x; a_issval := a_issval x; a_isskeys := a_isskeys x; a_entropy := a_entropy x; a_nonce := a_nonce x; a_blindediss := a_blindediss x; a_issblind := a_issblind x; a_issbad := v; a_urp := a_urp x; a_expval := a_expval x; a_valproof := a_valproof x; a_expasset := a_expasset x; a_assetproof := a_assetproof x; a_tapkeysig := a_tapkeysig x; a_tapss := a_tapss x; a_tapleaves := a_tapleaves x; a_tapbip32 := a_tapbip32 x; a_tapik := a_tapik x; a_tapmr := a_tapmr x |}.
+Definition set_a_urp (v : bool) (x : aux) : aux := {| a_nw := a_nw x; a_nwrp := a_nwrp x; a_w := a_w x; a_psigs := a_psigs x; a_sighash := a_sighash x; a_redeem := a_redeem x; a_wscript := a_wscript x; a_bip32 := a_bip32 x; a_fss := a_fss x; a_fsw := a_fsw x; a_issval := a_issval x; a_isskeys := a_isskeys x; a_entropy := a_entropy x; a_nonce := a_nonce x; a_blindediss := a_blindediss x; a_issblind := a_issblind x; a_issbad := a_issbad x; a_urp := v; a_expval := a_expval x; a_valproof := a_valproof x; a_expasset := a_expasset x; a_assetproof := a_assetproof x; a_tapkeysig := a_tapkeysig x; a_tapss := a_tapss x; a_tapleaves := a_tapleaves x; a_tapbip32 := a_tapbip32 x; a_tapik := a_tapik x; a_tapmr := a_tapmr x |}.
+Definition set_a_expval (v : N) (x : aux) : aux := {| a_nw := a_nw x; a_nwrp := a_nwrp x; a_w := a_w x; a_psigs := a_psigs x; a_sighash := a_sighash x; a_redeem := a_redeem x; a_wscript := a_wscript x; a_bip32 := a_bip32 x; a_fss := a_fss x; a_fsw := a_fsw x; a_issval := a_issval x; a_isskeys := a_isskeys x; a_entropy := a_entropy x; a_nonce := a_nonce x; a_blindediss := a_blindediss x; a_issblind := a_issblind x; a_issbad := a_issbad x; a_urp := a_urp x; a_expval := v; a_valproof := a_valproof x; a_expasset := a_expasset x; a_assetproof := a_assetproof x; a_tapkeysig := a_tapkeysig x; a_tapss := a_tapss x; a_tapleaves := a_tapleaves x; a_tapbip32 := a_tapbip32 x; a_tapik := a_tapik x; a_tapmr := a_tapmr x |}.
+Definition set_a_valproof (v : bool) (x : aux) : aux := {| a_nw := a_nw x; a_nwrp := a_nwrp x; a_w := a_w x; a_psigs := a_psigs x; a_sighash := a_sighash x; a_redeem := a_redeem x; a_wscript := a_wscript x; a_bip32 := a_bip32 x; a_fss := a_fss x; a_fsw := a_fsw x; a_issval := a_issval x; a_isskeys := a_isskeys x; a_entropy := a_entropy x; a_nonce := a_nonce x; a_blindediss := a_blindediss x; a_issblind := a_issblind x; a_issbad := a_issbad x; a_urp := a_urp x; a_expval := a_expval x; a_valproof := v; a_expasset := a_expasset x; a_assetproof := a_assetproof x; a_tapkeysig := a_tapkeysig x; a_tapss := a_tapss x; a_tapleaves := a_tapleaves x; a_tapbip32 := a_tapbip32 x; a_tapik := a_tapik x; a_tapmr := a_tapmr x |}.
+Definition set_a_expasset (v : N) (x : aux) : aux := {| a_nw := a_nw x; a_nwrp := a_nwrp x; a_w := a_w x; a_psigs := a_psigs x; a_sighash := a_sighash x; a_redeem := a_redeem x; a_wscript := a_wscript x; a_bip32 := a_bip32 x; a_fss := a_fss x; a_fsw := a_fsw x; a_issval := a_issval x; a_isskeys := a_isskeys x; a_entropy := a_entropy x; a_nonce := a_nonce x; a_blindediss := a_blindediss x; a_issblind := a_issblind x; a_issbad := a_issbad x; a_urp := a_urp x; a_expval := a_expval x; a_valproof := a_valproof x; a_expasset := v; a_assetproof := a_assetproof x; a_tapkeysig := a_tapkeysig x; a_tapss := a_tapss x; a_tapleaves := a_tapleaves x; a_tapbip32 := a_tapbip32 x; a_tapik := a_tapik x; a_tapmr := a_tapmr x |}.
+Definition set_a_assetproof (v : bool) (x : aux) : aux := {| a_nw := a_nw x; a_nwrp := a_nwrp x; a_w := a_w x; a_psigs := a_psigs x; a_sighash := a_sighash x; a_redeem := a_redeem x; a_wscript := a_wscript x; a_bip32 := a_bip32 x; a_fss := a_fss x; a_fsw := a_fsw x; a_issval := a_issval x; a_isskeys := a_isskeys x; a_entropy := a_entropy x; a_nonce := a_nonce x; a_blindediss := a_blindediss x; a_issblind := a_issblind x; a_issbad := a_issbad x; a_urp := a_urp x; a_expval := a_expval x; a_valproof := a_valproof x; a_expasset := a_expasset x; a_assetproof := v; a_tapkeysig := a_tapkeysig x; a_tapss := a_tapss x; a_tapleaves := a_tapleaves x; a_tapbip32 := a_tapbip32 x; a_tapik := a_tapik x; a_tapmr := a_tapmr x |}.
+Definition set_a_tapkeysig (v : N) (x : aux) : aux := {| a_nw := a_nw x; a_nwrp := a_nwrp x; a_w := a_w x; a_psigs := a_psigs x; a_sighash := a_sighash x; a_redeem := a_redeem x; a_wscript := a_wscript x; a_bip32 := a_bip32 x; a_fss := a_fss x; a_fsw := a_fsw x; a_issval := a_issval x; a_isskeys := a_isskeys x; a_entropy := a_entropy x; a_nonce := a_nonce x; a_blindediss := a_blindediss x; a_issblind := a_issblind x; a_issbad := a_issbad x; a_urp := a_urp x; a_expval := a_expval x; a_valproof := a_valproof x; a_expasset := a_expasset x; a_assetproof := a_assetproof x; a_tapkeysig := v; a_tapss := a_tapss x; a_tapleaves := a_tapleaves x; a_tapbip32 := a_tapbip32 x; a_tapik := a_tapik x; a_tapmr := a_tapmr x |}.
+Definition set_a_tapss (v : list tss) (x : aux) : aux := {| a_nw := a_nw x; a_nwrp := a_nwrp x; a_w := a_w x; a_psigs := a_psigs x; a_sighash := a_sighash x; a_redeem := a_redeem x; a_wscript := a_wscript x; a_bip32 := a_bip32 x; a_fss := a_fss x; a_fsw := a_fsw x; a_issval := a_issval x; a_isskeys := a_isskeys x; a_entropy := a_entropy x; a_nonce := a_nonce x; a_blindediss := a_blindediss x; a_issblind := a_issblind x; a_issbad := a_issbad x; a_urp := a_urp x; a_expval := a_expval x; a_valproof := a_valproof x; a_expasset := a_expasset x; a_assetproof := a_assetproof x; a_tapkeysig := a_tapkeysig x; a_tapss := v; a_tapleaves := a_tapleaves x; a_tapbip32 := a_tapbip32 x; a_tapik := a_tapik x; a_tapmr := a_tapmr x |}.
+Definition set_a_tapleaves (v : list N) (x : aux) : aux := {| a_nw := a_nw x; a_nwrp := a_nwrp x; a_w := a_w x; a_psigs := a_psigs x; a_sighash := a_sighash x; a_redeem := a_redeem x; a_wscript := a_wscript x; a_bip32 := a_bip32 x; a_fss := a_fss x; a_fsw := a_fsw x; a_issval := a_issval x; a_isskeys := a_isskeys x; a_entropy := a_entropy x; a_nonce := a_nonce x; a_blindediss := a_blindediss x; a_issblind := a_issblind x; a_issbad := a_issbad x; a_urp := a_urp x; a_expval := a_expval x; a_valproof := a_valproof x; a_expasset := a_expasset x; a_assetproof := a_assetproof x; a_tapkeysig := a_tapkeysig x; a_tapss := a_tapss x; a_tapleaves := v; a_tapbip32 := a_tapbip32 x; a_tapik := a_tapik x; a_tapmr := a_tapmr x |}.
+Definition set_a_tapbip32 (v : list tbd) (x : aux) : aux := {| a_nw := a_nw x; a_nwrp := a_nwrp x; a_w := a_w x; a_psigs := a_psigs x; a_sighash := a_sighash x; a_redeem := a_redeem x; a_wscript := a_wscript x; a_bip32 := a_bip32 x; a_fss := a_fss x; a_fsw := a_fsw x; a_issval := a_issval x; a_isskeys := a_isskeys x; a_entropy := a_entropy x; a_nonce := a_nonce x; a_blindediss := a_blindediss x; a_issblind := a_issblind x; a_issbad := a_issbad x; a_urp := a_urp x; a_expval := a_expval x; a_valproof := a_valproof x; a_expasset := a_expasset x; a_assetproof := a_assetproof x; a_tapkeysig := a_tapkeysig x; a_tapss := a_tapss x; a_tapleaves := a_tapleaves x; a_tapbip32 := v; a_tapik := a_tapik x; a_tapmr := a_tapmr x |}.
+Definition set_a_tapik (v : N) (x : aux) : aux := {| a_nw := a_nw x; a_nwrp := a_nwrp x; a_w := a_w x; a_psigs := a_psigs x; a_sighash := a_sighash x; a_redeem := a_redeem x; a_wscript := a_wscript x; a_bip32 := a_bip32 x; a_fss := a_fss x; a_fsw := a_fsw x; a_issval := a_issval x; a_isskeys := a_isskeys x; a_entropy := a_entropy x; a_nonce := a_nonce x; a_blindediss := a_blindediss x; a_issblind := a_issblind x; a_issbad := a_issbad x; a_urp := a_urp x; a_expval := a_expval x; a_valproof := a_valproof x; a_expasset := a_expasset x; a_assetproof := a_assetproof x; a_tapkeysig := a_tapkeysig x; a_tapss := a_tapss x; a_tapleaves := a_tapleaves x; a_tapbip32 := a_tapbip32 x; a_tapik := v; a_tapmr := a_tapmr x |}.
+Definition set_a_tapmr (v : N) (x : aux) : aux := {| a_nw := a_nw x; a_nwrp := a_nwrp x; a_w := a_w x; a_psigs := a_psigs x; a_sighash := a_sighash x; a_redeem := a_redeem x; a_wscript := a_wscript x; a_bip32 := a_bip32 x; a_fss := a_fss x; a_fsw := a_fsw x; a_issval := a_issval x; a_isskeys := a_isskeys x; a_entropy := a_entropy x; a_nonce := a_nonce x; a_blindediss := a_blindediss x; a_issblind := a_issblind x; a_issbad := a_issbad x; a_urp := a_urp x; a_expval := a_expval x; a_valproof := a_valproof x; a_expasset := a_expasset x; a_assetproof := a_assetproof x; a_tapkeysig := a_tapkeysig x; a_tapss := a_tapss x; a_tapleaves := a_tapleaves x; a_tapbip32 := a_tapbip32 x; a_tapik := a_tapik x; a_tapmr := v |}.
 
 Record outp := mk_outp {
   o_value : N;
@@ -134,24 +136,26 @@ Record outp := mk_outp {
   o_bk : N;
   o_bidx : N;
   o_blinded : bool;
+  o_badnonce : bool;
   o_redeem : option script;
   o_wscript : option script;
   o_bip32 : list (N * bool)
 }.
-Definition set_o_value (v : N) (x : outp) : outp := {| o_value := v; o_assetlen := o_assetlen x; o_script := o_script x; o_bk := o_bk x; o_bidx := o_bidx x; o_blinded := o_blinded x; o_redeem := o_redeem x; o_wscript := o_wscript x; o_bip32 := o_bip32 x |}.
-Definition set_o_assetlen (v : N) (x : outp) : outp := {| o_value := o_value x; o_assetlen := v; o_script := o_script x; o_bk := o_bk x; o_bidx := o_bidx x; o_blinded := o_blinded x; o_redeem := o_redeem x; o_wscript := o_wscript x; o_bip32 := o_bip32 x |}.
-Definition set_o_script (v : option script) (x : outp) : outp := {| o_value := o_value x; o_assetlen := o_assetlen x; o_script := v; o_bk := o_bk x; o_bidx := o_bidx x; o_blinded := o_blinded x; o_redeem := o_redeem x; o_wscript := o_wscript x; o_bip32 := o_bip32 x |}.
-Definition set_o_bk (v : N) (x : outp) : outp := {| o_value := o_value x; o_assetlen := o_assetlen x; o_script := o_script x; o_bk := v; o_bidx := o_bidx x; o_blinded := o_blinded x; o_redeem := o_redeem x; o_wscript := o_wscript x; o_bip32 := o_bip32 x |}.
-Definition set_o_bidx (v : N) (x : outp) : outp := {| o_value := o_value x; o_assetlen := o_assetlen x; o_script := o_script x; o_bk := o_bk x; o_bidx := v; o_blinded := o_blinded x; o_redeem := o_redeem x; o_wscript := o_wscript x; o_bip32 := o_bip32 x |}.
-Definition set_o_blinded (v : bool) (x : outp) : outp := {| o_value := o_value x; o_assetlen := o_assetlen x; o_script := o_script x; o_bk := o_bk x; o_bidx := o_bidx x; o_blinded := v; o_redeem := o_redeem x; o_wscript := o_wscript x; o_bip32 := o_bip32 x |}.
-Definition set_o_redeem (v : option script) (x : outp) : outp := {| o_value := o_value x; o_assetlen := o_assetlen x; o_script := o_script x; o_bk := o_bk x; o_bidx := o_bidx x; o_blinded := o_blinded x; o_redeem := v; o_wscript := o_wscript x; o_bip32 := o_bip32 x |}.
-Definition set_o_wscript (v : option script) (x : outp) : outp := {| o_value := o_value x; o_assetlen := o_assetlen x; o_script := o_script x; o_bk := o_bk x; o_bidx := o_bidx x; o_blinded := o_blinded x; o_redeem := o_redeem x; o_wscript := v; o_bip32 := o_bip32 x |}.
-Definition set_o_bip32 (v : list (N * bool)) (x : outp) : outp := {| o_value := o_value x; o_assetlen := o_assetlen x; o_script := o_script x; o_bk := o_bk x; o_bidx := o_bidx x; o_blinded := o_blinded x; o_redeem := o_redeem x; o_wscript := o_wscript x; o_bip32 := v |}.
+Definition set_o_value (v : N) (x : outp) : outp := {| o_value := v; o_assetlen := o_assetlen x; o_script := o_script x; o_bk := o_bk x; o_bidx := o_bidx x; o_blinded := o_blinded x; o_badnonce := o_badnonce x; o_redeem := o_redeem x; o_wscript := o_wscript x; o_bip32 := o_bip32 x |}.
+Definition set_o_assetlen (v : N) (x : outp) : outp := {| o_value := o_value x; o_assetlen := v; o_script := o_script x; o_bk := o_bk x; o_bidx := o_bidx x; o_blinded := o_blinded x; o_badnonce := o_badnonce x; o_redeem := o_redeem x; o_wscript := o_wscript x; o_bip32 := o_bip32 x |}.
+Definition set_o_script (v : option script) (x : outp) : outp := {| o_value := o_value x; o_assetlen := o_assetlen x; o_script := v; o_bk := o_bk x; o_bidx := o_bidx x; o_blinded := o_blinded x; o_badnonce := o_badnonce x; o_redeem := o_redeem x; o_wscript := o_wscript x; o_bip32 := o_bip32 x |}.
+Definition set_o_bk (v : N) (x : outp) : outp := {| o_value := o_value x; o_assetlen := o_assetlen x; o_script := o_script x; o_bk := v; o_bidx := o_bidx x; o_blinded := o_blinded x; o_badnonce := o_badnonce x; o_redeem := o_redeem x; o_wscript := o_wscript x; o_bip32 := o_bip32 x |}.
+Definition set_o_bidx (v : N) (x : outp) : outp := {| o_value := o_value x; o_assetlen := o_assetlen x; o_script := o_script x; o_bk := o_bk x; o_bidx := v; o_blinded := o_blinded x; o_badnonce := o_badnonce x; o_redeem := o_redeem x; o_wscript := o_wscript x; o_bip32 := o_bip32 x |}.
+Definition set_o_blinded (v : bool) (x : outp) : outp := {| o_value := o_value x; o_assetlen := o_assetlen x; o_script := o_script x; o_bk := o_bk x; o_bidx := o_bidx x; o_blinded := v; o_badnonce := o_badnonce x; o_redeem := o_redeem x; o_wscript := o_wscript x; o_bip32 := o_bip32 x |}.
+Definition set_o_badnonce (v : bool) (x : outp) : outp := {| o_value := o_value x; o_assetlen := o_assetlen x; o_script := o_script x; o_bk := o_bk x; o_bidx := o_bidx x; o_blinded := o_blinded x; o_badnonce := v; o_redeem := o_redeem x; o_wscript := o_wscript x; o_bip32 := o_bip32 x |}.
+Definition set_o_redeem (v : option script) (x : outp) : outp := {| o_value := o_value x; o_assetlen := o_assetlen x; o_script := o_script x; o_bk := o_bk x; o_bidx := o_bidx x; o_blinded := o_blinded x; o_badnonce := o_badnonce x; o_redeem := v; o_wscript := o_wscript x; o_bip32 := o_bip32 x |}.
+Definition set_o_wscript (v : option script) (x : outp) : outp := {| o_value := o_value x; o_assetlen := o_assetlen x; o_script := o_script x; o_bk := o_bk x; o_bidx := o_bidx x; o_blinded := o_blinded x; o_badnonce := o_badnonce x; o_redeem := o_redeem x; o_wscript := v; o_bip32 := o_bip32 x |}.
+Definition set_o_bip32 (v : list (N * bool)) (x : outp) : outp := {| o_value := o_value x; o_assetlen := o_assetlen x; o_script := o_script x; o_bk := o_bk x; o_bidx := o_bidx x; o_blinded := o_blinded x; o_badnonce := o_badnonce x; o_redeem := o_redeem x; o_wscript := o_wscript x; o_bip32 := v |}.
 
 Definition aux0 : aux :=
   {| a_nw := false; a_nwrp := false; a_w := None; a_psigs := []; a_sighash := 0; a_redeem := None; a_wscript := None;
      a_bip32 := []; a_fss := false; a_fsw := false; a_issval := 0; a_isskeys := 0; a_entropy := false; a_nonce := false;
-     a_blindediss := None; a_issblind := false; a_urp := false; a_expval := 0; a_valproof := false; a_expasset := 0;
+     a_blindediss := None; a_issblind := false; a_issbad := false; a_urp := false; a_expval := 0; a_valproof := false; a_expasset := 0;
      a_assetproof := false; a_tapkeysig := 0; a_tapss := []; a_tapleaves := []; a_tapbip32 := []; a_tapik := 0; a_tapmr := 0 |}.
 
 Record pset := {
@@ -300,7 +304,7 @@ Fixpoint add_inputs (p : pset) (l : list inarg) : option pset :=
 (* OutputArgs.toPartialOutput: class 1 gives an empty asset, class 3 a 31-byte one (class 2 panics) *)
 Definition to_outp (a : outarg) : outp :=
   {| o_value := oa_amount a; o_assetlen := if oa_cls a =? 0 then 32 else if oa_cls a =? 3 then 31 else 0;
-     o_script := oa_script a; o_bk := oa_bk a; o_bidx := oa_bidx a; o_blinded := false;
+     o_script := oa_script a; o_bk := oa_bk a; o_bidx := oa_bidx a; o_blinded := false; o_badnonce := false;
      o_redeem := None; o_wscript := None; o_bip32 := [] |}.
 
 (* Pset.addOutput *)
@@ -357,7 +361,7 @@ Record issue_args := { is_prec : N; is_contract : N; is_aamt : N; is_tamt : N; i
 (* address classes: 0 empty string, 1 unconfidential, 2 confidential, 3 not an address *)
 Record reissue_args := { ri_blinder : N; ri_entropy : N; ri_aamt : N; ri_aaddr : N; ri_tamt : N; ri_taddr : N }.
 Record blind_args := {
-  bl_last : bool; bl_owned : list N; bl_iss : list (N * bool); bl_outs : list (N * N);
+  bl_last : bool; bl_owned : list N; bl_iss : list (N * N); bl_outs : list (N * N);
   bl_surj : bool; bl_basset : bool; bl_range : bool; bl_bvalue : bool; bl_gfail : N; bl_scalar : N }.
 
 Inductive op :=
@@ -746,12 +750,12 @@ Fixpoint outargs_proofs (p : pset) (a : blind_args) (l : list (N * N)) : bool :=
 Fixpoint blind_outs (a : blind_args) (l : list (N * N)) (outs : list outp) : list outp * bool :=
   match l with
   | [] => (outs, true)
-  | (i, _) :: l' =>
+  | (i, cls) :: l' =>
     let last_args := bl_last a && match l' with [] => true | _ => false end in
     if last_args && ((bl_gfail a =? 2) || (bl_gfail a =? 3)) then (outs, false)
     else match nth_error outs (N.to_nat i) with
          | None => (outs, false)
-         | Some o => blind_outs a l' (set_nth (N.to_nat i) (set_o_bidx 0 (set_o_blinded true o)) outs)
+         | Some o => blind_outs a l' (set_nth (N.to_nat i) (set_o_badnonce (cls =? 3) (set_o_bidx 0 (set_o_blinded true o))) outs)
          end
   end.
 
@@ -765,7 +769,12 @@ Definition do_blind (p : pset) (a : blind_args) : (list aux * list outp * list N
   | BGo auxs =>
     if is_fully_blinded p then stop auxs Ok
     else if existsb (fun x => (Z.of_N (g_nin p) - 1 <? Z.of_N (fst x))%Z
-                              || match nth_error auxs (N.to_nat (fst x)) with Some ax => finalized ax | None => false end)
+                              || match nth_error auxs (N.to_nat (fst x)) with
+                                 | Some ax => finalized ax
+                                              (* class 2: a 5-byte value commitment; its length is only looked at when
+                                                 the input has an issuance value *)
+                                              || ((snd x =? 2) && (0 <? a_issval ax))
+                                 | None => false end)
                     (bl_iss a) then stop auxs Err
     else
       let outs_sorted := sort_by_idx (bl_outs a) in
@@ -779,7 +788,8 @@ Definition do_blind (p : pset) (a : blind_args) : (list aux * list outp * list N
           (* from here on the staged copy is written; it is published only by publish *)
           let auxs' := fold_left (fun l x =>
                         match nth_error l (N.to_nat (fst x)) with
-                        | Some ax => set_nth (N.to_nat (fst x)) (set_a_issblind (snd x) ax) l
+                        | Some ax => set_nth (N.to_nat (fst x))
+                                       (set_a_issbad (snd x =? 2) (set_a_issblind (negb (snd x =? 0)) ax)) l
                         | None => l end) (bl_iss a) auxs in
           let '(outs, done) := blind_outs a outs_sorted (p_outs p) in
           if negb done then stop auxs Err
@@ -810,7 +820,7 @@ Definition issue_validate (a : issue_args) : bool :=
 
 Definition mk_out (amount : N) (addr : N) (bidx : N) : outp :=
   {| o_value := amount; o_assetlen := 32; o_script := Some (SWpkh 0); o_bk := addr_bk addr; o_bidx := bidx;
-     o_blinded := false; o_redeem := None; o_wscript := None; o_bip32 := [] |}.
+     o_blinded := false; o_badnonce := false; o_redeem := None; o_wscript := None; o_bip32 := [] |}.
 
 (* the whole result is given: AddInIssuance is structural (it can add outputs) *)
 Definition do_issue (p : pset) (i : Z) (a : issue_args) : pset * outcome :=
@@ -1010,10 +1020,12 @@ Fixpoint nodup_pairs (l : list (N * N)) : bool :=
 Definition aux_reparses (a : aux) : bool :=
   forallb (fun s => ts_pklen s + ts_lhlen s =? 64) (a_tapss a)
   && nodup_pairs (map (fun s => (ts_pk s, ts_leaf s)) (a_tapss a))     (* duplicate = same key AND same leaf hash *)
-  && nodup_n (map tb_key (a_tapbip32 a)).
+  && nodup_n (map tb_key (a_tapbip32 a))
+  && negb (a_issbad a).          (* an issuance value commitment that is not 33 bytes *)
 
 Definition out_reparses (o : outp) : bool :=
-  (o_assetlen o =? 32) && negb (o_bk o =? 2).
+  (o_assetlen o =? 32) && negb (o_bk o =? 2)
+  && negb (o_badnonce o).        (* an ecdh pubkey (nonce commitment) that is not a curve point *)
 
 Definition rt (p : pset) : bool :=
   sanity p
